@@ -951,7 +951,7 @@ class SetIndex(BaseSetIndexSortValues):
             and self._other in self.frame.columns
         ):
             head = NFirst(self.frame, n=parent.n, _columns=self._other, ascending=True)
-            return SetIndex(head, _other=self._other)
+            return SetIndex(head, _other=self._other, drop=self.drop)
 
         if (
             isinstance(parent, Tail)
@@ -959,7 +959,7 @@ class SetIndex(BaseSetIndexSortValues):
             and self._other in self.frame.columns
         ):
             tail = NLast(self.frame, n=parent.n, _columns=self._other, ascending=True)
-            return SetIndex(tail, _other=self._other)
+            return SetIndex(tail, _other=self._other, drop=self.drop)
 
         if isinstance(parent, Projection):
             addition_columns = (
